@@ -450,6 +450,15 @@ func (g *gen) rewritePkgRefs(info *types.Info, node ast.Node) ast.Node {
 		}
 		return false
 	}
+	// Names declared anywhere inside node. A new name must differ from all of
+	// them, whatever their scope: otherwise the renamed identifier could
+	// redeclare or capture another variable of the copied declaration.
+	declared := make(map[string]bool)
+	for id, obj := range info.Defs {
+		if obj != nil && start <= id.Pos() && id.Pos() < end {
+			declared[id.Name] = true
+		}
+	}
 	var scopeStack []*types.Scope
 	pkgScope := g.pkg.Types.Scope()
 	node = astutil.Apply(node, func(c *astutil.Cursor) bool {
@@ -483,7 +492,7 @@ func (g *gen) rewritePkgRefs(info *types.Info, node ast.Node) ast.Node {
 			return true
 		}
 		newName := disambiguate(objName, func(n string) bool {
-			if g.nameInFileScope(n) || inNewNames(n) {
+			if g.nameInFileScope(n) || inNewNames(n) || declared[n] {
 				return true
 			}
 			if len(scopeStack) > 0 {
